@@ -102,7 +102,27 @@ def check(tier):
             rep.oblige(1, ok=False)
             rep.note_inconclusive('harness %s: no verdict (timeout/crash): %s' % (n, r.raw[-300:]))
     batch_inversion(rep, tier)
+    oracle_validation(rep)
     return rep.finish()
+
+
+def oracle_validation(rep):
+    """the python oracles used when replaying counterexamples agree with the real code on boundary operands (plumbing check)"""
+    pts = [0, 1, 2, 6143, 6144, 6145, 12287, 12288]
+    reqs = []; want = []
+    for a in pts:
+        for b in (0, 1, 6144, 12288):
+            reqs += [['felt_add', a, b], ['felt_sub', a, b], ['felt_mul', a, b]]; want += [str((a + b) % Q), str((a - b) % Q), str(a * b % Q)]
+        reqs += [['felt_neg', a], ['felt_inv', a], ['felt_balanced', a]]; want += [str(-a % Q), str(pow(a, Q - 2, Q)), str(a if a <= 6144 else a - Q)]
+    for v in (-32768, -24578, -12290, -12289, -12288, -1, 0, 1, 12288, 12289, 24578, 32767):
+        reqs.append(['felt_new', v]); want.append(str(v % Q))
+    for prof in ('dev', 'release'):
+        got = replay.call(reqs, prof)
+        for rq, g, w in zip(reqs, got, want):
+            if g == w:
+                rep.replayed += 1
+            else:
+                rep.violation('native:' + rq[0], '%s = %s [%s], specification says %s' % (' '.join(map(str, rq)), g, prof, w), {'replay_request': rq, 'got': g, 'expected': w, 'profile': prof})
 
 
 def batch_inversion(rep, tier):
